@@ -78,12 +78,12 @@ def biased_case(rng):
     return gd, q
 
 
-def run_case(ctx, gd, q, doms):
+def run_case(ctx, gd, q, doms, cards=None):
     from y0.algorithm.transport import identify_target_outcomes
     from y0.dsl import Variable
 
     g = gg.to_nx(gd)
-    kernel.LOG.reset_case({"graph": gd, "X": q["X"], "Y": q["Y"], "domains": doms})
+    kernel.LOG.reset_case({"graph": gd, "X": q["X"], "Y": q["Y"], "domains": doms, **({"cards": cards} if cards else {})})
     so = {Variable(p): {Variable(w) for w in zw[1]} for p, zw in doms.items()}
     # the two per-domain dictionaries are keyed by domain; a caller need not list the domains in the same order
     keys = list(doms)
@@ -166,6 +166,24 @@ def run_shard(ctx):
             else:
                 pool[rng.randrange(len(pool))] = (gd, q, doms)
     ctx.extras["feedback"] = fb
+    # wide graphs: a small core (query and domains on it) embedded in 10..14 nodes whose padding is constant in the models
+    nw = 0
+    for i in range(ctx.share({"quick": 400, "thorough": 6000}[ctx.tier])):
+        bc = biased_case(rng) if i % 2 else None
+        if bc is None:
+            core = gg.random_admg(rng, rng.choice([3, 4, 4, 5]))
+            q = gq.random_query(rng, core)
+            if q is None:
+                continue
+        else:
+            core, q = bc
+        if len(core["nodes"]) > 6:
+            continue
+        doms = random_domains(rng, core, q, True) if i % 5 else {}
+        gd, pad = gg.embed_wide(core, rng, rng.randint(10, 14))
+        nw += 1
+        run_case(ctx, gd, q, doms, cards={w: 1 for w in pad})
+    ctx.extras["wide_graphs"] = nw
 
 
 def replay(case):
@@ -179,7 +197,7 @@ def replay(case):
     gd = case["graph"]
     gd = {"nodes": gd["nodes"], "di": gd["di"], "bi": gd["bi"]}
     doms = {p: (list(zw[0]), list(zw[1])) for p, zw in (case.get("domains") or {}).items()}
-    run_case(_C(), gd, {"X": case["X"], "Y": case["Y"]}, doms)
+    run_case(_C(), gd, {"X": case["X"], "Y": case["Y"]}, doms, cards=case.get("cards"))
 
 
 def install_for_suite():
